@@ -6,6 +6,7 @@ THEOREMS = ["C16_detect_fd", "C16_detect_fd_same_call", "C16_recover_transient",
             "C16_exporter_nonvacuous", "C16_nonvacuous"]
 VARIANT = "plain"
 
+EXTRA_PROPERTY_FILES = ("Properties_writers",)   # the bodies of the output writers' functions as they are now (translator/writers.py) against what the model was written after
 def match_known(case, why, known):
     key = case.get("finding_key")
     for k in known:
